@@ -60,7 +60,7 @@ func (a *Allocator) AllocateBlockMemory(p peer.ID, amount uint64) <-chan error {
 		a.peerStatuses[p] = status
 	}
 
-	if (a.totalAllocatedAllPeers+amount <= a.maxAllowedAllocatedTotal) && (status.totalAllocated+amount <= a.maxAllowedAllocatedPerPeer) && len(status.pendingAllocations) == 0 {
+	if fitsUnder(a.totalAllocatedAllPeers, amount, a.maxAllowedAllocatedTotal) && fitsUnder(status.totalAllocated, amount, a.maxAllowedAllocatedPerPeer) && len(status.pendingAllocations) == 0 {
 		a.totalAllocatedAllPeers += amount
 		status.totalAllocated += amount
 		log.Debugw("bytes allocated", "amount", amount, "peer", p, "peer total", status.totalAllocated, "global total", a.totalAllocatedAllPeers)
@@ -148,10 +148,10 @@ func (a *Allocator) processPendingAllocations() {
 
 func (a *Allocator) processNextPendingAllocationForPeer(nextPeer *peerStatus) bool {
 	pendingAllocation := nextPeer.pendingAllocations[0]
-	if a.totalAllocatedAllPeers+pendingAllocation.amount > a.maxAllowedAllocatedTotal {
+	if !fitsUnder(a.totalAllocatedAllPeers, pendingAllocation.amount, a.maxAllowedAllocatedTotal) {
 		return false
 	}
-	if nextPeer.totalAllocated+pendingAllocation.amount > a.maxAllowedAllocatedPerPeer {
+	if !fitsUnder(nextPeer.totalAllocated, pendingAllocation.amount, a.maxAllowedAllocatedPerPeer) {
 		return false
 	}
 	a.totalAllocatedAllPeers += pendingAllocation.amount
@@ -160,6 +160,11 @@ func (a *Allocator) processNextPendingAllocationForPeer(nextPeer *peerStatus) bo
 	log.Debugw("bytes allocated", "amount", pendingAllocation.amount, "peer", nextPeer.p, "peer total", nextPeer.totalAllocated, "global total", a.totalAllocatedAllPeers)
 	pendingAllocation.response <- nil
 	return true
+}
+
+// fitsUnder reports whether current+amount <= limit without overflowing uint64.
+func fitsUnder(current, amount, limit uint64) bool {
+	return amount <= limit && current <= limit-amount
 }
 
 func (a *Allocator) Stats() graphsync.ResponseStats {
@@ -224,10 +229,10 @@ func makePeerStatusCompare(maxPerPeer uint64) pq.ElemComparator {
 		if len(pb.pendingAllocations) == 0 {
 			return true
 		}
-		if pa.totalAllocated+pa.pendingAllocations[0].amount > maxPerPeer {
+		if !fitsUnder(pa.totalAllocated, pa.pendingAllocations[0].amount, maxPerPeer) {
 			return false
 		}
-		if pb.totalAllocated+pb.pendingAllocations[0].amount > maxPerPeer {
+		if !fitsUnder(pb.totalAllocated, pb.pendingAllocations[0].amount, maxPerPeer) {
 			return true
 		}
 		if pa.pendingAllocations[0].allocIndex < pb.pendingAllocations[0].allocIndex {
